@@ -156,6 +156,14 @@ let () =
                      (String.concat "," (List.map (fun l ->
                           String.concat "+" (List.sort (fun a b -> compare (String.length a, a) (String.length b, b)) (List.map string_of_z l))) offs)))
                    outs))
+          | "B" ->
+            let good = nz () in let _crash = next () in
+            let n = int_of_string (next ()) in
+            let regs = List.init n (fun _ -> nz ()) in
+            (* valid_registers() of the amd64 context: the 16 general-purpose registers and rip (0x400000 in every B case) *)
+            (match run_nearby good (regs @ [z_of_int 0x400000]) with
+             | None -> "P;;"
+             | Some (c, i) -> "B " ^ string_of_z c ^ " " ^ (let s = string_of_z i in if s = "-1" then "-" else s))
           | "J" ->
             let rd () = let n = int_of_string (next ()) in
               List.init n (fun _ -> let a = nz () in let b = nz () in (a, b)) in
